@@ -59,6 +59,16 @@ Proof. intros L H. induction m as [|m IH].
   - destruct (Nat.eq_dec n (S m)) as [->|N]; auto.
     simpl. rewrite IH, H by (try lia; intros; apply H; lia). ring. Qed.
 
+Lemma bsum_split f a b : bsum f (a + b) = bsum f a + bsum (fun k => f (a + k)%nat) b.
+Proof. induction b as [|b IH]; simpl.
+  - rewrite Nat.add_0_r; ring.
+  - replace (a + S b)%nat with (S (a + b)) by lia. simpl. rewrite IH. ring. Qed.
+Lemma bsum_rev f n : bsum f n = bsum (fun k => f (n - 1 - k)%nat) n.
+Proof. induction n as [|n IH]; auto.
+  rewrite (bsum_shift (fun k => f (S n - 1 - k)%nat)). simpl bsum at 1.
+  replace (S n - 1 - 0)%nat with n by lia. rewrite IH.
+  rewrite (bsum_ext (fun k => f (S n - 1 - S k)%nat) (fun k => f (n - 1 - k)%nat)) by (intros; f_equal; lia).
+  ring. Qed.
 Lemma rpow_add a j k : rpow a (j + k) = rpow a j * rpow a k.
 Proof. induction j as [|j IH]; simpl; [ring | rewrite IH; ring]. Qed.
 Lemma rpow_one k : rpow 1 k = 1.
